@@ -17,6 +17,9 @@ if os.path.exists(os.path.join(vlib.VERIF, "tools", "translate.py")):
 if os.path.exists(os.path.join(vlib.VERIF, "tools", "translate17.py")):
     import translate17
     translate17.regenerate()
+if os.path.exists(os.path.join(vlib.VERIF, "tools", "translate_src.py")):
+    import translate_src
+    translate_src.regenerate()
 vlib.write_coqproject()
 import json
 claimed = [c["property_id"] for c in json.load(open(os.path.join(vlib.VERIF, "MANIFEST.json")))["checks"]]
